@@ -149,6 +149,13 @@ class VNet:
         if peer is not None:
             peer.on_datagram(data, src)
             return
+        if dst[0].endswith(".255"):
+            # directed (sub-net) broadcast: every peer on that /24 listening on the port
+            pre = dst[0].rsplit(".", 1)[0] + "."
+            for addr, peer in list(self.peers.items()):
+                if addr[0].startswith(pre) and addr[1] == dst[1]:
+                    peer.on_datagram(data, src)
+            return
         for tr in self.transports:
             if tr.addr == dst:
                 tr._deliver(data, src)
